@@ -35,5 +35,5 @@ elif [ "$cmd" = run ]; then
     echo "$c rc=$rc $(echo "$out" | grep -c '^VIOLATION') violation lines; $(echo "$out" | grep -m1 -A1 '^VIOLATION' | tail -1 | cut -c1-220)"
     [ $rc -eq 2 ] && echo "$out" | tail -3
   done
-  git -C /repo checkout -- . ; git -C /repo status --short
+  git -C /repo checkout -- . ; git -C /repo clean -fdq -- ipp util examples; git -C /repo status --short
 fi
